@@ -9,4 +9,5 @@ CONSTANTS
 INVARIANT Consistency
 INVARIANT Mirror
 INVARIANT Upwind
+INVARIANT Eigen
 CHECK_DEADLOCK FALSE
